@@ -264,7 +264,17 @@ fn build_ops(start: (usize, usize), lead: Option<usize>, segs: &[(u8, usize, usi
     ops
 }
 
+/// (the selectors 7..=9 add n-1, 2n-1 and 3n, which matter for large n too)
 fn eq_len(sel: u8, raw: usize, n: usize) -> usize {
+    if sel >= 7 {
+        let n = n.min(1 << 40);
+        return match sel {
+            7 => n.saturating_sub(1),
+            8 => (2 * n).saturating_sub(1),
+            _ => 3 * n,
+        }
+        .max(1);
+    }
     // run lengths around n, 2n, ... also for huge n (op lists need no backing sequences)
     let n = n.min(1 << 40);
     (match sel % 7 {
@@ -290,7 +300,7 @@ fn radius() -> impl Strategy<Value = usize> {
 }
 
 fn strat(tier: Tier) -> BoxedStrategy<Case> {
-    let synth = (radius(), (0usize..4, 0usize..4), proptest::option::of((0u8..7, 1usize..14)), vec((0u8..3, 1usize..4, 1usize..4, 0u8..7, 1usize..14), 0..=6), any::<bool>())
+    let synth = (radius(), (0usize..4, 0usize..4), proptest::option::of((0u8..10, 1usize..14)), vec((0u8..3, 1usize..4, 1usize..4, 0u8..10, 1usize..14), 0..=6), any::<bool>())
         .prop_map(|(n, start, lead, segs, trail)| {
             let segs: Vec<(u8, usize, usize, usize)> = segs.into_iter().map(|(k, d, i, s, r)| (k, d, i, eq_len(s, r, n))).collect();
             let lead = lead.map(|(s, r)| eq_len(s, r, n));
